@@ -166,6 +166,13 @@ mut("C12 clamp after the incomplete gamma calls", [(GAM, "        if x_n <= 0. {
 mut("C12 N: clamp written with max", [(GAM, "        if x_n <= 0. {\n            x_n = 1.0e-16;\n        }\n", "        x_n = x_n.max(1.0e-16);\n")], C12=None)
 mut("C12 N: negated form of the clamp", [(GAM, "        if x_n <= 0. {\n            x_n = 1.0e-16;\n        }\n", "        if !(x_n > 0.) {\n            x_n = 1.0e-16;\n        }\n")], C12=None)
 
+# ---- C12-e ----
+mut("C12 Euler constant from a table indexed by the shape", [(GAM, "    let c = 0.577_215_664_901_532_9;", "    let cs = [0.577_215_664_901_532_9, 0.577_215_664_901_532_9];\n    let c = cs[a as usize];")], C12="C12-e")
+mut("C12 start value unwrapped from a filtered Option", [(GAM, "    let mut x_n = x0;", "    let mut x_n = Some(x0).filter(|v| v.is_finite()).unwrap();")], C12="C12-e")
+mut("C12 assert that p is positive", [(GAM, "    let q = 1.0 - p;\n", "    assert!(p > 0.0, \"p must be positive\");\n    let q = 1.0 - p;\n")], C12="C12-e")
+mut("C12 N: assert that the shape is positive", [(GAM, "    let q = 1.0 - p;\n", "    assert!(a > 0.0, \"shape must be positive\");\n    let q = 1.0 - p;\n")], C12=None)
+mut("C12 N: assert that p is not NaN and not negative", [(GAM, "    let q = 1.0 - p;\n", "    assert!(!p.is_nan() && p >= 0.0);\n    let q = 1.0 - p;\n")], C12=None)
+
 # ---- C14-h ----
 mut("C14 pop_edge clears with AND-NOT of the wrong bit", [(PRE, "            id: self.id ^ (1 << edge_id),", "            id: self.id ^ (1 << (edge_id + 1)),")], C14="C14-h")
 mut("C14 has_one_edge tests two bits", [(PRE, "        self.id.count_ones() == 1", "        self.id.count_ones() <= 2")], C14="C14-h")
